@@ -680,6 +680,114 @@ func TestCipherReaderSourceKinds(t *testing.T) {
 	})
 }
 
+// Every way of taking bytes out of the same reader, mixed freely: Read,
+// io.ReadFull, io.ReadAtLeast, ReadByte when the reader offers it, io.Copy
+// (WriteTo when the reader offers it) through a limited and an unlimited
+// view. Everything taken out, in order, is the reference at a running offset.
+func TestCipherReaderFeedingModes(t *testing.T) {
+	hx.Check(t, 8, func(t *rapid.T) {
+		n := rapid.IntRange(0, 300).Draw(t, "len")
+		if rapid.IntRange(0, 5).Draw(t, "long") == 0 {
+			n = drawLen(t, "lenLong") % 9000
+		}
+		key := gen.Key(t, "key")
+		data := pattern(n, drawSeed(t))
+		chunks := gen.Chunks(t, "chunks")
+		src := tx.NewSrc(data, chunks)
+		src.EOFWithData = rapid.Bool().Draw(t, "eofWithData")
+		nops := rapid.IntRange(1, 8).Draw(t, "ops")
+		hx.Eval()
+
+		cr := wsutil.NewCipherReader(src, key)
+		_, hasWriteTo := interface{}(cr).(io.WriterTo)
+		_, hasReadByte := interface{}(cr).(io.ByteReader)
+		want := ref.Mask(data, key, 0)
+		var got []byte
+		var used []string
+		odd, done := false, false
+		for i := 0; i < nops && !done; i++ {
+			op := rapid.SampledFrom([]string{"Read", "ReadFull", "ReadAtLeast", "ReadByte", "CopyN", "Copy"}).Draw(t, "op")
+			if i == nops-1 {
+				op = "Copy" // drain the rest
+			}
+			if len(got)%4 != 0 {
+				odd = true
+			}
+			used = append(used, op)
+			var err error
+			switch op {
+			case "Read":
+				buf := make([]byte, rapid.IntRange(1, 40).Draw(t, "size"))
+				var k int
+				k, err = cr.Read(buf)
+				got = append(got, buf[:k]...)
+			case "ReadFull":
+				buf := make([]byte, rapid.IntRange(1, 40).Draw(t, "size"))
+				var k int
+				k, err = io.ReadFull(cr, buf)
+				got = append(got, buf[:k]...)
+			case "ReadAtLeast":
+				buf := make([]byte, rapid.IntRange(1, 40).Draw(t, "size"))
+				var k int
+				k, err = io.ReadAtLeast(cr, buf, rapid.IntRange(1, len(buf)).Draw(t, "atLeast"))
+				got = append(got, buf[:k]...)
+			case "ReadByte":
+				cnt := rapid.IntRange(1, 7).Draw(t, "count")
+				if br, ok := interface{}(cr).(io.ByteReader); ok {
+					for j := 0; j < cnt && err == nil; j++ {
+						var c byte
+						if c, err = br.ReadByte(); err == nil {
+							got = append(got, c)
+						}
+					}
+				} else {
+					buf := make([]byte, cnt)
+					var k int
+					k, err = io.ReadFull(cr, buf)
+					got = append(got, buf[:k]...)
+				}
+			case "CopyN":
+				rec := tx.NewRec()
+				_, err = io.CopyN(rec, cr, int64(rapid.IntRange(1, 40).Draw(t, "size")))
+				got = append(got, rec.Bytes()...)
+			case "Copy":
+				rec := tx.NewRec()
+				if wt, ok := interface{}(cr).(io.WriterTo); ok && rapid.Bool().Draw(t, "directWriteTo") {
+					_, err = wt.WriteTo(rec)
+				} else {
+					_, err = io.Copy(rec, cr)
+				}
+				got = append(got, rec.Bytes()...)
+				if err == nil {
+					done = true
+				}
+			}
+			if !bytes.Equal(got, want[:min(len(got), len(want))]) || len(got) > len(want) {
+				t.Fatalf("%s\nkey=%x chunks=%v ops=%v", diffMsg("bytes taken out so far differ from the reference", got, want), key, chunks, used)
+			}
+			switch err {
+			case nil:
+			case io.EOF, io.ErrUnexpectedEOF:
+				done = true
+			default:
+				t.Fatalf("%s: %v", op, err)
+			}
+		}
+		if !bytes.Equal(got, want) {
+			t.Fatalf("%s\nkey=%x chunks=%v ops=%v", diffMsg("bytes taken out differ from the reference", got, want), key, chunks, used)
+		}
+		hx.Class(fmt.Sprintf("reader-modes/implements WriterTo=%v ByteReader=%v/opAfterOddByteCount=%v", hasWriteTo, hasReadByte, odd))
+		for _, o := range used {
+			hx.Class("reader-modes/op=" + o)
+		}
+		if n >= 8 && odd {
+			hx.NonTrivial(hx.Hash("reader-modes", n, fmt.Sprint(chunks), fmt.Sprint(used), len(got)), func() interface{} {
+				return map[string]interface{}{"api": "CipherReader, mixed ways of reading", "len": n, "key": fmt.Sprintf("%x", key), "src_chunks": chunks, "ops": used}
+			})
+		}
+	})
+}
+
 // errTransient is a non-fatal source error (a deadline that fired, a
 // temporary condition): the stream goes on afterwards.
 var errTransient = errors.New("c02: transient source error")
@@ -1016,7 +1124,7 @@ func TestCipherWriterCopyInterleaved(t *testing.T) {
 		pieces := gen.Split(t, "split", caller, 6)
 		ops := make([]string, len(pieces))
 		for i := range ops {
-			ops[i] = rapid.SampledFrom([]string{"Write", "Copy(tx.Src)", "Copy(tx.Src)", "Copy(LimitedReader)", "Copy(bytes.Reader)", "ReadFrom"}).Draw(t, "op")
+			ops[i] = rapid.SampledFrom([]string{"Write", "Copy(tx.Src)", "Copy(tx.Src)", "Copy(LimitedReader)", "Copy(bytes.Reader)", "ReadFrom", "WriteString", "WriteString", "WriteByte"}).Draw(t, "op")
 		}
 		chunks := gen.Chunks(t, "chunks")
 		hx.Eval()
@@ -1024,6 +1132,8 @@ func TestCipherWriterCopyInterleaved(t *testing.T) {
 		rec := tx.NewRec()
 		cw := wsutil.NewCipherWriter(rec, key)
 		_, hasReadFrom := interface{}(cw).(io.ReaderFrom)
+		_, hasWriteString := interface{}(cw).(io.StringWriter)
+		_, hasWriteByte := interface{}(cw).(io.ByteWriter)
 		fed, oddBefore := 0, false
 		for i, p := range pieces {
 			if fed%4 != 0 && len(p) > 0 {
@@ -1042,6 +1152,24 @@ func TestCipherWriterCopyInterleaved(t *testing.T) {
 				k, err = io.Copy(cw, io.LimitReader(bytes.NewReader(append(append([]byte(nil), p...), 0xAA, 0xBB)), int64(len(p))))
 			case "Copy(bytes.Reader)":
 				k, err = io.Copy(cw, bytes.NewReader(append([]byte(nil), p...)))
+			case "WriteString":
+				// io.WriteString uses the writer's WriteString when it has one
+				var kk int
+				kk, err = io.WriteString(cw, string(p))
+				k = int64(kk)
+			case "WriteByte":
+				if bwr, ok := interface{}(cw).(io.ByteWriter); ok {
+					for _, c := range p {
+						if err = bwr.WriteByte(c); err != nil {
+							break
+						}
+						k++
+					}
+				} else {
+					var kk int
+					kk, err = cw.Write(p)
+					k = int64(kk)
+				}
 			case "ReadFrom":
 				if rf, ok := interface{}(cw).(io.ReaderFrom); ok {
 					k, err = rf.ReadFrom(tx.NewSrc(p, chunks))
@@ -1060,7 +1188,10 @@ func TestCipherWriterCopyInterleaved(t *testing.T) {
 		if !bytes.Equal(caller, content) {
 			t.Fatalf("CipherWriter modified the caller's bytes")
 		}
-		hx.Class(fmt.Sprintf("writer-copy/implementsReaderFrom=%v/opAfterOddByteCount=%v", hasReadFrom, oddBefore))
+		hx.Class(fmt.Sprintf("writer-copy/implements ReaderFrom=%v StringWriter=%v ByteWriter=%v/opAfterOddByteCount=%v", hasReadFrom, hasWriteString, hasWriteByte, oddBefore))
+		for _, o := range ops {
+			hx.Class("writer-copy/op=" + o)
+		}
 		if n >= 8 && oddBefore {
 			hx.NonTrivial(hx.Hash("writer-copy", n, fmt.Sprint(pieceLens(pieces)), fmt.Sprint(ops)), func() interface{} {
 				return map[string]interface{}{"api": "CipherWriter Write/io.Copy interleaved", "len": n, "key": fmt.Sprintf("%x", key), "pieces": pieceLens(pieces), "ops": ops}
@@ -1287,10 +1418,14 @@ func TestCipherWriterDestinationState(t *testing.T) {
 			}
 			var k int64
 			var err error
-			op := rapid.SampledFrom([]string{"Write", "Write", "Write", "Copy(tx.Src)"}).Draw(t, "op")
+			op := rapid.SampledFrom([]string{"Write", "Write", "Write", "Copy(tx.Src)", "WriteString"}).Draw(t, "op")
 			if op == "Write" {
 				var kk int
 				kk, err = cw.Write(p)
+				k = int64(kk)
+			} else if op == "WriteString" {
+				var kk int
+				kk, err = io.WriteString(cw, string(p))
 				k = int64(kk)
 			} else {
 				k, err = io.Copy(cw, tx.NewSrc(p, nil))
